@@ -1,0 +1,10 @@
+//go:build verif
+
+// Contracts for package resolver, read by the verification machinery in /verif.
+// This file contains no executable code; it is compiled only with -tags verif.
+package resolver
+
+/*@
+// every function of this package is swept for implicit panics that its own guards rule out
+sweep C03
+@*/
